@@ -1,9 +1,31 @@
-/* Hamiltonian::prepare(comm) / Hamiltonian::compute(comm)  (src/pomerol/Hamiltonian.cpp) -- the MPI side of C03.
+/* Hamiltonian::prepare(comm) / Hamiltonian::compute(comm)  (src/pomerol/Hamiltonian.cpp) -- the MPI side of C03
+ * ("It is a container for several hamiltonian parts, each for single defined QuantumNumbers and a corresponding BlockNumber", Hamiltonian.h).
  *
  * CLAIM: per-rank SEQUENTIAL bookkeeping under ASSUMED contracts of mpi_skel::run (C16, specs/mpi.c), boost::mpi::broadcast and
  * comm.barrier().  ONE rank is looked at, with an arbitrary rank number, an arbitrary communicator size and an arbitrary job map;
- * there is no second rank, no schedule exploration, nothing about matching of collectives across ranks, nothing about the VALUES
- * that travel (they are opaque).  What is proved is what THIS rank does with its parts.
+ * there is no second rank, no schedule exploration, nothing about the matching of collectives across ranks, nothing about the VALUES
+ * that travel (they are opaque).  What is proved is what THIS rank does with its parts:
+ *
+ *   prepare(): no-op when already prepared.  Otherwise parts.size() == NumberOfBlocks; exactly one `new HamiltonianPart(IndexInfo, F, S, b)` per
+ *     block b, in block order, stored at parts[b] (ghost block); the skeleton mpi_skel<PrepareWrap<HamiltonianPart>> holds one wrapper per part
+ *     (wrapper k wraps parts[k], complexity 1) when it is run, and is run once on prepare()'s communicator; one barrier; then for every part
+ *     (ghost block) H -- and only H -- is broadcast exactly once, rows*cols elements, from the rank job_map[p] that prepared it; on the other
+ *     ranks H is first sized to getSize() x getSize() and the part's Status set to Prepared, the preparing rank touches neither; Status = Prepared.
+ *   compute(): no-op when already computed.  Otherwise the skeleton mpi_skel<ComputeWrap<HamiltonianPart>> holds one wrapper per part (wrapper k
+ *     wraps parts[k], complexity = parts[k]->getSize()) when it is run, once, on compute()'s communicator; one barrier; then for every part (ghost
+ *     block) H (rows*cols elements) and then Eigenvalues (H.rows() elements) are broadcast exactly once each from job_map[p]; on the other ranks
+ *     Eigenvalues is first sized to H.rows() and the part's Status set to Computed, the computing rank touches neither; computeGroundEnergy() is
+ *     called once, after all 2*parts.size() broadcasts, with every part Computed and Eigenvalues.size() == block size (its pre-condition in
+ *     ham.c); Status = Computed.  The `throw logic_error("Worker didn't calculate this part")` is unreachable under the skeleton's contract.
+ *
+ * ASSUMPTIONS (all inside dependency stubs, marked ASSUMED): contract of mpi_skel::run (job map: every job a key, every value a rank of the
+ *   communicator; a part whose job ran on this rank has been prepared / computed: contracts of HamiltonianPart::prepare / compute, hampart.c);
+ *   PART INVARIANT instantiated at the accessed index for the non-ghost parts; block sizes in [1, HM_MAXDIM] (C07 + LIMIT); `new` succeeds.
+ * LIMITS: block dimension <= 32767 (the element count of a broadcast is an `int`: rows*cols must fit, true up to 46340); the VALUE of the count is
+ *   compared with rows*cols only for dimensions <= HM_CNT_GUARD = 1023 (solver cost of 64-bit products), n >= 0 beyond.
+ * OBSERVATIONS (not defects): compute() does not test Status >= Prepared: on a Hamiltonian that was never prepared it runs an empty skeleton and
+ *   calls computeGroundEnergy() with no parts (LEV of uninitialised entries) -- the pre-condition "prepared, one part per block" is the caller's.
+ *   The `int` element count limits dense blocks to dimension 46340.
  */
 #include "../stubs/common.h"
 #include "../stubs/mpi.h"
@@ -82,6 +104,7 @@ int gblock;                          /* ghost: the block number the part was con
 //@end
 /* LIMIT: the element count of a broadcast is an `int`: rows*cols of a block must fit (block dimension <= 46340); the model stops at 2^15-1 */
 #define HM_MAXDIM 32767L
+#define HM_CNT_GUARD 1023L
 #define HM_DIM_OK(n) (((n) & ~HM_MAXDIM) == 0)      /* 0 <= n <= HM_MAXDIM, written as a bit mask (keeps the products of two dimensions small for the solver) */
 /* HamiltonianPart::getSize() = S.getBlockSize(Block) -- callee contract (hampart.c h_HP_getSize; S is computed here) */
 static inline unsigned long HamiltonianPart_getSize(struct HamiltonianPart *p) { return (unsigned long)p->gsize; }
@@ -111,11 +134,20 @@ struct HamiltonianPart *g_curp;      /* the part the most recent parts[...] yiel
 /* the rank that ran job k (contract of mpi_skel::run: a function of the job) */
 int __CPROVER_uninterpreted_job_owner(long);
 #define JOB_OWNER(k) __CPROVER_uninterpreted_job_owner(k)
+struct HamiltonianPart g_new_ghost, g_new_other;     /* prepare(): the object `new HamiltonianPart` yields for the ghost block / for any other block */
 static inline unsigned long PartVec_size(PartVec *v) { return (unsigned long)v->size; }
 static inline PartPtr *PartVec_at(PartVec *v, unsigned long i)
 {
   __CPROVER_assert(i < (unsigned long)v->size, "std::vector<shared_ptr<HamiltonianPart>>::operator[]: index inside the vector");
-  if ((long)i == v->gidx) { g_curp = v->g.px; return &v->g; }
+  if ((long)i == v->gidx) {
+    if (g_what == Prepared && v->g.px != (struct HamiltonianPart *)0) {
+      /* prepare(): the stored pointer has passed through loop abstractions (CBMC knows it only through an invariant equality and cannot follow it):
+       * CHECK that it is the part created for the ghost block, then name that object explicitly (a no-op for the program) */
+      __CPROVER_assert(v->g.px == &g_new_ghost, "C03: parts[g] holds the part created for block g");
+      v->g.px = &g_new_ghost;
+    }
+    g_curp = v->g.px; return &v->g;
+  }
   if ((long)i != v->other_idx || g_phase != v->other_phase) {
     /* another element (or the skeleton has worked on the parts since): arbitrary contents (an uninitialised local is nondeterministic) ... */
     struct HamiltonianPart fresh_part;
@@ -127,10 +159,13 @@ static inline PartPtr *PartVec_at(PartVec *v, unsigned long i)
       __CPROVER_assume(fresh_part.Status >= Prepared && fresh_part.H.rows == fresh_part.gsize && fresh_part.H.cols == fresh_part.gsize);
       __CPROVER_assume(fresh_part.Status < Computed || fresh_part.Eigenvalues.size == fresh_part.gsize);
     }
+    /* before skel.run in prepare(): the part has just been constructed */
+    if (g_what == Prepared) __CPROVER_assume(fresh_part.Status == Constructed);
     /* after skel.run: the job of part i was run on rank JOB_OWNER(i) (contract of mpi_skel::run + of HamiltonianPart::prepare/compute) */
     if (g_phase == 1 && g_rank == JOB_OWNER((long)i)) {
-      __CPROVER_assume(fresh_part.Status == (unsigned)g_what && fresh_part.H.rows == fresh_part.gsize && fresh_part.H.cols == fresh_part.gsize);
-      if (g_what == Computed) __CPROVER_assume(fresh_part.Eigenvalues.size == fresh_part.gsize);
+      __CPROVER_assume(fresh_part.H.rows == fresh_part.gsize && fresh_part.H.cols == fresh_part.gsize);
+      if (g_what == Computed) __CPROVER_assume(fresh_part.Status == Computed && fresh_part.Eigenvalues.size == fresh_part.gsize);
+      else fresh_part.Status = Prepared;
     }
     v->other = fresh_part; v->other_idx = (long)i; v->other_phase = g_phase;
   }
@@ -173,11 +208,14 @@ static inline void broadcast_buf(Comm *comm, double *buf, int n, int root)
   __CPROVER_assert(isH || isE, "C03: the buffer of a broadcast is H.data() or Eigenvalues.data() of the part parts[p] just indexed");
   if (!(isH || isE)) return;
   if (isH) {
-    __CPROVER_assert((long)n == part->H.rows * part->H.cols, "C17: the H buffer holds exactly the n = rows*cols elements that are broadcast");
+    /* (the value of the count is compared with rows*cols for dimensions up to HM_CNT_GUARD only: proving two 64-bit products equal for
+     * arbitrary dimensions costs the SAT solver minutes per call site; beyond the guard only n >= 0 is checked) */
+    __CPROVER_assert(n >= 0 && (part->H.rows > HM_CNT_GUARD || part->H.cols > HM_CNT_GUARD || (long)n == part->H.rows * part->H.cols),
+                     "C03: the H buffer holds exactly the n = rows*cols elements that are broadcast");
     part->H.n_bcast++; part->H.root = root;
     REACH("broadcast H");
   } else {
-    __CPROVER_assert((long)n == part->Eigenvalues.size, "C17: the Eigenvalues buffer holds exactly the n elements that are broadcast");
+    __CPROVER_assert((long)n == part->Eigenvalues.size, "C03: the Eigenvalues buffer holds exactly the n elements that are broadcast");
     __CPROVER_assert(part->H.n_bcast == part->Eigenvalues.n_bcast + 1, "C03: H is broadcast before Eigenvalues");
     part->Eigenvalues.n_bcast++; part->Eigenvalues.root = root;
     REACH("broadcast Eigenvalues");
@@ -231,7 +269,6 @@ static inline JobMap CSkel_run(struct CSkel *s, Comm *comm, _Bool verbose)
   REACH("skel.run");
   return m;
 }
-#define mpi_skel_run CSkel_run
 
 /* Hamiltonian::computeGroundEnergy() -- callee contract (ham.c h_Ham_computeGroundEnergy): pre: every part computed, one part per block
  * (checked at the ghost part); post: GroundEnergy = the minimum over the parts (opaque here). */
@@ -306,10 +343,163 @@ static inline void Hamiltonian_computeGroundEnergy(struct Hamiltonian *self)
   REACH("computeGroundEnergy");
 }
 
-//@harness h_Ham_compute_mpi enforce=Hamiltonian_compute props=C03,C17 min_obl=1 reach=6 timeout=300
+//@harness h_Ham_compute_mpi enforce=Hamiltonian_compute props=C03 min_obl=2398 reach=8 timeout=450
 void h_Ham_compute_mpi(void)
 {
   struct Hamiltonian *h; Comm *c;
   Hamiltonian_compute(h, c);
   if (g_n_run) { if (g_rank == g_owner) REACH("exit-owner"); else REACH("exit-other"); } else REACH("exit-noop");
 }
+
+/* ================================================================================================================
+ * Hamiltonian::prepare(comm)
+ * ================================================================================================================ */
+static inline void PartVec_resize(PartVec *v, unsigned long n)
+{ v->size = (long)n; v->g.px = (struct HamiltonianPart *)0; v->other_idx = -1; }    /* n empty shared_ptrs */
+unsigned long g_n_new, g_new_hits;
+long __CPROVER_uninterpreted_block_size(int);
+static inline struct HamiltonianPart *HamiltonianPart_new4(struct IndexClassification *ii, struct Operator *f, struct StatesClassification *s, BlockNumber b)
+{
+  __CPROVER_assert(ii == &g_self->IndexInfo && f == &g_self->F && s == &g_self->S, "C03: a part is built from the Hamiltonian's own IndexInfo, F and S");
+  __CPROVER_assert(b.number >= 0 && (unsigned long)b.number == g_n_new, "C03: the k-th part is created for block k");
+  g_n_new++;
+  struct HamiltonianPart fresh_part;
+  long bs = __CPROVER_uninterpreted_block_size(b.number);
+  __CPROVER_assume(1 <= bs && HM_DIM_OK(bs));         /* ASSUMED (C07): a block has at least one state; LIMIT HM_MAXDIM */
+  fresh_part.Status = Constructed; fresh_part.gblock = b.number; fresh_part.gsize = bs;
+  fresh_part.H.rows = 0; fresh_part.H.cols = 0; fresh_part.H.n_bcast = 0; fresh_part.H.n_resize = 0;
+  fresh_part.Eigenvalues.size = 0; fresh_part.Eigenvalues.n_bcast = 0; fresh_part.Eigenvalues.n_resize = 0;
+  if ((long)b.number == g_gidx) { g_new_ghost = fresh_part; g_new_hits++; REACH("new part@ghost"); return &g_new_ghost; }
+  g_new_other = fresh_part;
+  return &g_new_other;
+}
+static inline void PartPtr_reset(PartPtr *p, struct HamiltonianPart *x) { p->px = x; }
+
+
+/* ---- the skeleton mpi_skel<PrepareWrap<HamiltonianPart>> */
+//@tu src/pomerol/Hamiltonian.cpp filter=pMPI::
+typedef struct PrepareWrap { struct HamiltonianPart *x; int complexity; } PWrap;
+#define PWrap_assign(dst_, src_) (*(dst_) = (src_))
+//@function pMPI::PrepareWrap<Pomerol::HamiltonianPart>::PrepareWrap(Pomerol::HamiltonianPart&, int) as PWrap_ctor2
+//@end
+/* the call site `PrepareWrap<HamiltonianPart>(*parts[i])` relies on the default argument `int complexity = 1` (mpi_skel.hpp:30; the printer
+ * drops default arguments): READ OFF the header, the constructor body itself is extracted */
+#define PWrap_ctor1(y_) PWrap_ctor2((y_), 1)
+//@tu src/pomerol/Hamiltonian.cpp
+typedef struct PWrapVec { unsigned long size; long gidx; PWrap g, scratch; unsigned long g_stores; } PWrapVec;
+struct PSkel { PWrapVec parts; };
+static inline struct PSkel PSkel_ctor0(void)
+{ struct PSkel s; s.parts.size = 0; s.parts.gidx = g_gidx; s.parts.g.x = (struct HamiltonianPart *)0; s.parts.g.complexity = 0; s.parts.scratch = s.parts.g; s.parts.g_stores = 0; return s; }
+static inline void PWrapVec_resize(PWrapVec *v, unsigned long n) { v->size = n; }
+static inline PWrap *PWrapVec_at(PWrapVec *v, unsigned long i)
+{
+  __CPROVER_assert(i < v->size, "std::vector<PrepareWrap>::operator[]: index inside the vector");
+  if ((long)i == v->gidx) { v->g_stores++; return &v->g; }
+  return &v->scratch;
+}
+/* mpi_skel<PrepareWrap<HamiltonianPart>>::run(comm, verbose) -- CONTRACT STUB, as CSkel_run above; a part whose job ran HERE has had
+ * run() = x->prepare() called: Status == Prepared, H is BlockSize x BlockSize (contract of HamiltonianPart::prepare, hampart.c). */
+static inline JobMap PSkel_run(struct PSkel *s, Comm *comm, _Bool verbose)
+{
+  __CPROVER_assert(comm == g_comm, "C03: the skeleton is run on the communicator handed to prepare()");
+  __CPROVER_assert(s->parts.size == (unsigned long)g_nparts, "C03: one wrapper per part");
+  if (0 <= g_gidx && g_gidx < g_nparts) {
+    __CPROVER_assert(s->parts.g_stores == 1, "C03: the wrapper of a part is stored exactly once");
+    __CPROVER_assert(s->parts.g.x == &g_new_ghost, "C03: wrapper k wraps parts[k], the part created for block k");
+    __CPROVER_assert(s->parts.g.complexity == 1, "C03: every preparation job has complexity 1");
+    if (g_rank == g_owner) {
+      g_new_ghost.Status = Prepared; g_new_ghost.H.rows = g_new_ghost.gsize; g_new_ghost.H.cols = g_new_ghost.gsize;
+      REACH("ghost part prepared here");
+    }
+  }
+  g_n_run++; g_phase = 1;
+  JobMap m; m.njobs = g_nparts; m.gkey = g_gidx; m.gval = g_owner; m.other = 0;
+  REACH("skel.run (prepare)");
+  return m;
+}
+
+#define HAS_G (g_gidx >= 0)
+#define NG g_new_ghost
+#define NG_FRESH (NG.Status == Constructed && (long)NG.gblock == g_gidx && 1 <= NG.gsize && HM_DIM_OK(NG.gsize) && NG.H.rows == 0 && NG.H.cols == 0 && \
+                  NG.H.n_bcast == 0 && NG.H.n_resize == 0 && NG.Eigenvalues.n_bcast == 0 && NG.Eigenvalues.n_resize == 0 && NG.Eigenvalues.size == 0)
+#define PREP_GHOSTS g_n_bcast, g_n_barrier, g_n_run, g_phase, g_curp, g_new_ghost, g_new_other, g_n_new, g_new_hits
+//@function Pomerol::Hamiltonian::prepare(boost::mpi::communicator const&) as Hamiltonian_prepare
+//@contract
+__CPROVER_requires(__CPROVER_is_fresh(self, sizeof(*self)) && g_self == self)
+__CPROVER_requires(__CPROVER_is_fresh(comm, sizeof(*comm)) && g_comm == comm)
+__CPROVER_requires(HAM_MPI_WF(self, comm) && g_what == Prepared)
+/* a computed classification with at least one block (2^IndexSize >= 1 states); block numbers are `int` */
+__CPROVER_requires(self->S.nblocks >= 1 && self->S.nblocks <= HM_MAXBLOCKS && self->Status <= Computed && g_nparts == self->S.nblocks)
+/* the ghost block */
+__CPROVER_requires((g_gidx == -1 || (0 <= g_gidx && g_gidx < self->S.nblocks)) && self->parts.gidx == g_gidx && self->parts.other_idx == -1 && self->parts.other_phase == 0)
+__CPROVER_requires(g_n_new == 0 && g_new_hits == 0)
+__CPROVER_assigns(self->Status, self->parts.size, self->parts.g, self->parts.otherp, self->parts.other, self->parts.other_idx, self->parts.other_phase, VERIF_thrown, PREP_GHOSTS)
+__CPROVER_ensures(!VERIF_thrown)
+/* already prepared: nothing happens */
+__CPROVER_ensures(__CPROVER_old(self->Status) >= Prepared ==> (self->Status == __CPROVER_old(self->Status) && g_n_new == 0 && g_n_run == 0 && g_n_bcast == 0 && g_n_barrier == 0 &&
+                  self->parts.size == __CPROVER_old(self->parts.size)))
+/* otherwise: one part per block, created in block order (monitor of `new`: the k-th part is built for block k from IndexInfo, F, S); the skeleton is
+ * run once with one PrepareWrap per part; one barrier; one broadcast per part; Status = Prepared */
+__CPROVER_ensures(__CPROVER_old(self->Status) < Prepared ==> (self->Status == Prepared && self->parts.size == self->S.nblocks && g_n_new == (unsigned long)self->S.nblocks &&
+                  g_new_hits == (HAS_G ? 1UL : 0UL) && g_n_run == 1 && g_n_barrier == 1 && g_n_bcast == (unsigned long)self->S.nblocks))
+/* the ghost block: parts[g] is THE part created for block g; its matrix is broadcast once from the rank that prepared it; Prepared on every rank;
+ * the receiving ranks size H to BlockSize x BlockSize first, the preparing rank leaves it alone; Eigenvalues are not touched */
+__CPROVER_ensures((__CPROVER_old(self->Status) < Prepared && HAS_G) ==> (self->parts.g.px == &g_new_ghost && (long)NG.gblock == g_gidx && NG.Status == Prepared &&
+                  NG.H.n_bcast == 1 && NG.H.root == g_owner && NG.H.rows == NG.gsize && NG.H.cols == NG.gsize && 1 <= NG.gsize &&
+                  NG.H.n_resize == (g_rank == g_owner ? 0UL : 1UL) && NG.Eigenvalues.n_bcast == 0 && NG.Eigenvalues.n_resize == 0))
+//@loop 1
+__CPROVER_assigns(CurrentBlock, self->parts.g, self->parts.otherp, self->parts.other, self->parts.other_idx, self->parts.other_phase, g_curp, g_new_ghost, g_new_other, g_n_new, g_new_hits)
+__CPROVER_loop_invariant(0 <= CurrentBlock.number && CurrentBlock.number <= NumberOfBlocks.number && NumberOfBlocks.number == (int)self->S.nblocks && self->parts.size == self->S.nblocks)
+__CPROVER_loop_invariant(self->parts.gidx == g_gidx && self->parts.other_phase == 0 && g_n_new == (unsigned long)CurrentBlock.number)
+__CPROVER_loop_invariant(g_new_hits == ((HAS_G && (long)CurrentBlock.number > g_gidx) ? 1UL : 0UL))
+__CPROVER_loop_invariant(!(HAS_G && (long)CurrentBlock.number > g_gidx) || (self->parts.g.px == &g_new_ghost && NG_FRESH))
+__CPROVER_loop_invariant(!(HAS_G && (long)CurrentBlock.number <= g_gidx) || self->parts.g.px == (struct HamiltonianPart *)0)
+__CPROVER_decreases(NumberOfBlocks.number - CurrentBlock.number)
+//@loop 2
+__CPROVER_assigns(i, skel.parts.g, skel.parts.scratch, skel.parts.g_stores, g_curp, self->parts.g, self->parts.otherp, self->parts.other, self->parts.other_idx, self->parts.other_phase)
+__CPROVER_loop_invariant(self->parts.other_phase == 0 && (!HAS_G || self->parts.g.px == &g_new_ghost))
+__CPROVER_loop_invariant(i <= (unsigned long)self->parts.size && skel.parts.size == (unsigned long)self->parts.size && skel.parts.gidx == g_gidx)
+__CPROVER_loop_invariant(skel.parts.g_stores == ((HAS_G && (long)i > g_gidx) ? 1UL : 0UL))
+__CPROVER_loop_invariant(!(HAS_G && (long)i > g_gidx) || (skel.parts.g.x == &g_new_ghost && skel.parts.g.complexity == 1))
+__CPROVER_decreases((unsigned long)self->parts.size - i)
+//@loop 3
+__CPROVER_assigns(p, VERIF_thrown, g_n_bcast, g_curp, job_map.other, g_new_ghost, self->parts.g, self->parts.otherp, self->parts.other, self->parts.other_idx, self->parts.other_phase)
+__CPROVER_loop_invariant(self->parts.other_idx < (long)p || self->parts.other_phase != 1)
+__CPROVER_loop_invariant(p <= (unsigned long)self->parts.size && !VERIF_thrown && g_n_bcast == p && (!HAS_G || self->parts.g.px == &g_new_ghost))
+__CPROVER_loop_invariant(job_map.njobs == self->parts.size && job_map.gkey == g_gidx && job_map.gval == g_owner)
+__CPROVER_loop_invariant(!HAS_G || ((long)NG.gblock == g_gidx && 1 <= NG.gsize && HM_DIM_OK(NG.gsize) && NG.Eigenvalues.n_bcast == 0 && NG.Eigenvalues.n_resize == 0))
+__CPROVER_loop_invariant(!HAS_G || ((long)p <= g_gidx
+      ? (NG.H.n_bcast == 0 && NG.H.n_resize == 0 && (g_rank == g_owner ? (NG.Status == Prepared && NG.H.rows == NG.gsize && NG.H.cols == NG.gsize) : NG.Status == Constructed))
+      : (NG.H.n_bcast == 1 && NG.H.root == g_owner && NG.Status == Prepared && NG.H.rows == NG.gsize && NG.H.cols == NG.gsize && NG.H.n_resize == (g_rank == g_owner ? 0UL : 1UL))))
+__CPROVER_decreases((unsigned long)self->parts.size - p)
+//@end
+
+//@harness h_Ham_prepare_mpi enforce=Hamiltonian_prepare props=C03 min_obl=1153 reach=7 timeout=360
+void h_Ham_prepare_mpi(void)
+{
+  struct Hamiltonian *h; Comm *c;
+  Hamiltonian_prepare(h, c);
+  if (g_n_run) { if (g_rank == g_owner) REACH("exit-owner"); else REACH("exit-other"); } else REACH("exit-noop");
+}
+
+/* ---- mutation record (tools/try_mutant.py, src/pomerol/Hamiltonian.cpp; all killed) -------------------------------------------------------
+ * h_Ham_compute_mpi  C1  non-owner Eigenvalues broadcast with root 0 instead of job_map[p]      Hamiltonian_compute.loop_invariant_step.9 (ghost part: root == owner)
+ *                    C2  `parts[p]->Status = Computed` dropped                                  loop_invariant_step.9
+ *                    C3  ComputeWrap(*parts[i], 1)                                              loop_invariant_step.4 (complexity == size of the part)
+ *                    C4  ComputeWrap(*parts[0], ...)                                            loop_invariant_step.4 (wrapper k wraps parts[k])
+ *                    C5  `Eigenvalues.resize(H.rows())` dropped                                 broadcast_buf.assertion.5 (buffer holds n elements), loop_invariant_step.9
+ *                    C6  computeGroundEnergy() also before the broadcasts                       postcondition.3, Hamiltonian_computeGroundEnergy.assertion.2 (every part computed)
+ *                    C7  owner's H count H.rows() instead of rows*cols                          broadcast_buf.assertion.4
+ *                    C8  `if (Status >= Computed) return` dropped                               postcondition.2
+ *                    C9  owner broadcasts Eigenvalues in place of H                             broadcast_buf.assertion.6 (H before Eigenvalues), loop_invariant_step.9
+ *                    C10 broadcast loop from p = 1                                              postcondition.3/.4, Hamiltonian_computeGroundEnergy.assertion.2, loop_invariant_base.4
+ * h_Ham_prepare_mpi  P1  every part built for BlockNumber(0)                                    HamiltonianPart_new4.assertion.2 (k-th part for block k), loop_invariant_step.3/.4
+ *                    P2  creation loop from block 1                                             postcondition.3, new4.assertion.2, PartPtr_mul (empty shared_ptr), loop_invariant_base
+ *                    P3  `H.resize(getSize(),getSize())` dropped                                broadcast_buf.assertion.4, loop_invariant_step.14
+ *                    P4  `parts[p]->Status = Prepared` dropped                                  loop_invariant_step.14
+ *                    P5  non-owner broadcast with root 0                                        loop_invariant_step.14
+ *                    P6  PrepareWrap(*parts[0])                                                 loop_invariant_step.9
+ *                    P7  parts[0].reset(new ...)                                                loop_invariant_step.4 (parts[g] is the part created for block g)
+ *                    P8  count getSize() instead of getSize()*getSize()                         broadcast_buf.assertion.4
+ *                    P9  `if (Status >= Prepared) return` dropped                               postcondition.2
+ */
